@@ -191,6 +191,54 @@ def rule_R1h(res, prog):
     res.floor(rid, 1)
 
 
+def rule_R1i(res, prog):
+    """TLS <= 1.2: a message whose type differs from the expected one and that is neither an enumerated transition (R1b)
+    nor fatal is *ignored* (consumed, state unchanged).  The only such arm the RFCs allow here is the HelloRequest that
+    crosses a renegotiation ClientHello (RFC 5246 7.4.1.1) - i.e. on an already protected connection.  Every success return
+    of parseSSLHandshake that still carries the branch fact `hsType != ssl->hsState` must match that entry."""
+    from sa import cfgutil as cu
+    rid = "C06.R1i"
+    res.rule(rid, "TLS <= 1.2: a mismatching message is silently ignored only under the enumerated condition (HelloRequest during renegotiation)")
+    F = prog.const
+    fn = prog.fn("parseSSLHandshake")
+    gf = cu.guard_facts(fn)
+    IGNORE = [{"type": F("SSL_HS_HELLO_REQUEST"), "state": F("SSL_HS_SERVER_HELLO"),
+               "need": [("(ssl->flags & %d)" % F("SSL_FLAGS_READ_SECURE"), True), ("(ssl->flags & %d)" % F("SSL_FLAGS_WRITE_SECURE"), True),
+                        ("(ssl->flags & %d)" % F("SSL_FLAGS_SERVER"), False)],
+               "why": "RFC 5246 7.4.1.1: HelloRequest crossing the client's renegotiation ClientHello"}]
+    n = 0
+    for b in fn.blocks:
+        for i, ln, x in cu.block_exprs(b):
+            if x.get("k") != "ret" or not cu.success_ret(x):
+                continue
+            facts = gf.get(b["id"], frozenset())
+            if ("(hsType != ssl->hsState)", True) not in facts:
+                continue
+            n += 1
+            ty = st = None
+            for (t_, tr) in facts:
+                if t_ == "hsType" and not tr:
+                    ty = 0
+                m_ = t_.startswith("(hsType == ") and tr
+                if m_:
+                    ty = int(t_[len("(hsType == "):-1])
+                if t_.startswith("(ssl->hsState == ") and tr:
+                    st = int(t_[len("(ssl->hsState == "):-1])
+            ok = False
+            for e in IGNORE:
+                if ty == e["type"] and st == e["state"] and all(f in facts for f in e["need"]):
+                    ok = True
+            f_ = None
+            if not ok:
+                f_ = Finding(PROP, rid, fn.name, "mismatching message ignored outside the enumerated arm",
+                             "%s:%s parseSSLHandshake(): a success return is reached with the received type (%s) different from the "
+                             "expected state (%s) and the state unchanged, on a path that does not establish the condition of the one "
+                             "allowed ignore-arm (HelloRequest while waiting for ServerHello, READ_SECURE and WRITE_SECURE set, client): a "
+                             "premature / foreign message is swallowed instead of being fatal" % (fn.relfile, ln, ty, st), file=fn.relfile, line=ln)
+            res.instance(rid, "parseSSLHandshake:%s message type %s ignored in state %s" % (ln, ty, st), ok, finding=f_)
+    res.floor(rid, 1)
+
+
 def run(tier):
     res = Result(PROP, tier)
     prog = load_program()
@@ -455,6 +503,7 @@ def run(tier):
 
     rule_R2l(res, prog)
     rule_R1h(res, prog)
+    rule_R1i(res, prog)
 
     # ---------------------------------------------------------------- R3
     res.rule("C06.R3", "ChangeCipherSpec discipline: read keys are activated only when expecting Finished; the "
